@@ -11,7 +11,7 @@ use crate::mon_through::{through_decoder, Acc};
 use crate::refs::*;
 use crate::report::*;
 use crate::scan::{ref_for, Dec};
-use crate::with_layout;
+
 use pc_keyboard::layouts::AnyLayout;
 use pc_keyboard::{DecodedKey, EventDecoder, HandleControl, KeyCode, KeyEvent, KeyState, Keyboard, ScancodeSet1, ScancodeSet2};
 use std::collections::{BTreeMap, BTreeSet};
@@ -56,7 +56,16 @@ fn chars_str(cs: &[char]) -> String {
 fn cube_common(prop: &str, rep: &mut Report) -> Cube {
     let cube = Cube::build();
     rep.count("map_keycode_calls_recorded", cube.calls);
-    rep.count("layout_objects", 30);
+    rep.count("layout_objects", (cube.n_layouts * 3) as u64);
+    if cube.n_layouts > 10 {
+        rep.notes.push(format!("the tree ships layouts the harness does not know by name; they are covered by every reference-free oracle: {}", extra_layout_names().join(", ")));
+    }
+    if !unmonitored_layout_impls().is_empty() {
+        rep.notes.push(format!(
+            "NOT COVERED: the tree implements KeyboardLayout for {} – type(s) the harness cannot build a value of (parameters / fields); nothing in this evidence speaks about them",
+            unmonitored_layout_impls().join(", ")
+        ));
+    }
     rep.count("keys_in_universe", cube.keys.len() as u64);
     // A panicking call is recorded in the cube as the value PANIC and is judged like any other value by
     // the property's own oracle, i.e. only where the property constrains that cell (attribution rule);
@@ -994,6 +1003,128 @@ pub fn run_c16(rep: &mut Report) {
 
 // =================================================================== C17
 
+/// C17, process-wide state behind the wrapper (see hidden.rs): if AnyLayout look-ups write to static memory, inputs that
+/// leave a written word with the same value are looked up back to back and the second answer is compared with the
+/// wrapped layout's own.
+fn c17_hidden_state_probe(rep: &mut Report, cube: &Cube) {
+    use crate::hidden::*;
+    let Some(regions) = exe_rw_regions() else {
+        rep.notes.push("static-memory watch: the executable's writable mappings could not be read from /proc/self/maps; probe skipped".into());
+        return;
+    };
+    let objs: Vec<Box<dyn pc_keyboard::KeyboardLayout>> = (0..20).map(|o| layout_obj(o / 2, 1 + o % 2)).collect();
+    let nk = cube.keys.len();
+    let per_obj = nk * 1024;
+    let decode = |input: u32| -> (usize, usize, usize, u16) {
+        let i = input as usize;
+        (i / per_obj, (i % per_obj) / 1024, (i % 1024) >> 9, (i & 511) as u16)
+    };
+    let call = |input: u32| -> u32 {
+        let (o, ki, mode, m) = decode(input);
+        dk_enc(objs[o].map_keycode(cube.keys[ki], &mods_from_bits(m), MODES[mode]))
+    };
+    let total_inputs = (20 * per_obj) as u32;
+    let r = guarded(|| {
+        // warm-up (lazy initialisation inside std or the crate is not what is looked for)
+        for s in 0..64u32 {
+            let _ = call((s * 39_119) % total_inputs);
+        }
+        let (mut a, mut b) = (Vec::with_capacity(regions.bytes), Vec::with_capacity(regions.bytes));
+        regions.snapshot_into(&mut a);
+        regions.snapshot_into(&mut b);
+        if a != b {
+            return Err("the executable's static memory changes between two snapshots with nothing in between".to_string());
+        }
+        let mut touched: BTreeSet<usize> = BTreeSet::new();
+        let watched = 256u32;
+        for s in 0..watched {
+            regions.snapshot_into(&mut a);
+            let _ = call((s.wrapping_mul(2_654_435_761)) % total_inputs);
+            regions.snapshot_into(&mut b);
+            for (i, (x, y)) in a.iter().zip(b.iter()).enumerate() {
+                if x != y {
+                    touched.insert(i);
+                }
+            }
+            if touched.len() > 256 {
+                return Err(format!("{} bytes of static memory change across look-ups: too much to be the crate's", touched.len()));
+            }
+        }
+        if touched.is_empty() {
+            return Ok((watched as u64, 0usize, 0u64, 0u64, Vec::new()));
+        }
+        let words = words_over(&touched, &regions);
+        let mut pairs: BTreeSet<(u32, u32)> = BTreeSet::new();
+        let mut looked = 0u64;
+        for (g, addr) in words.iter().take(32) {
+            let mut vals: Vec<(u64, u32)> = Vec::with_capacity(total_inputs as usize);
+            for input in 0..total_inputs {
+                let _ = call(input);
+                vals.push((read_word(*g, *addr), input));
+            }
+            looked += total_inputs as u64;
+            colliding_pairs(&mut vals, 3, &mut pairs, 400_000);
+        }
+        let mut bad = Vec::new();
+        for (x, y) in pairs.iter() {
+            let _ = call(*x);
+            let got = call(*y);
+            let (o, ki, mode, m) = decode(*y);
+            let want = cube.get(o / 2, 0, ki, mode, m);
+            if got != want && bad.len() < 50 {
+                bad.push((*x, *y, got, want));
+            }
+        }
+        Ok((watched as u64, touched.len(), looked, pairs.len() as u64, bad))
+    });
+    match r {
+        Err(_) => rep.count("static_memory_probe_aborted_by_a_panic(C08_matter)", 1),
+        Ok(Err(why)) => rep.notes.push(format!("static-memory watch stepped aside: {}", why)),
+        Ok(Ok((watched, touched, looked, pairs, bad))) => {
+            rep.count("lookups_watched_for_writes_to_static_memory", watched);
+            rep.count("bytes_of_static_memory_written_by_anylayout_lookups", touched as u64);
+            rep.evaluations += pairs;
+            if touched == 0 {
+                rep.notes.push(format!("static-memory watch: no byte of the executable's {} bytes of writable static memory changed across {} AnyLayout look-ups (no process-wide state behind the wrapper)", regions.bytes, watched));
+            } else {
+                rep.count("lookups_fingerprinted_by_the_written_words", looked);
+                rep.count("back_to_back_lookup_pairs_that_leave_a_written_word_equal", pairs);
+                rep.notes.push(format!(
+                    "static-memory watch: AnyLayout look-ups write {} bytes of static memory (process-wide state that no Debug rendering shows); {} ordered pairs of inputs that leave one of the written words with the same value were looked up back to back",
+                    touched, pairs
+                ));
+            }
+            for (x, y, got, want) in bad {
+                let (ox, kx, modex, mx) = decode(x);
+                let (oy, ky, modey, my) = decode(y);
+                rep.violate(
+                    format!("C17|after-another-lookup|{}|form={}|key={:?}|bare={}|wrapped={}", layout_name(oy / 2), FORM_NAMES[1 + oy % 2], cube.keys[ky], cube.show(want), cube.show(got)),
+                    format!(
+                        "AnyLayout::{} used {} gives {} for {:?} with {} (mode {}) when the look-up before it was AnyLayout::{} {:?} with {} (mode {}); the wrapped layout itself gives {}",
+                        layout_name(oy / 2),
+                        if oy % 2 == 0 { "by value" } else { "by reference" },
+                        cube.show(got),
+                        cube.keys[ky],
+                        mods_str(my),
+                        mode_str(MODES[modey]),
+                        layout_name(ox / 2),
+                        cube.keys[kx],
+                        mods_str(mx),
+                        mode_str(MODES[modex]),
+                        cube.show(want)
+                    ),
+                    J::obj()
+                        .with("kind", J::s("layout-pair"))
+                        .with("first", J::s(format!("{} {} {:?} {} {}", layout_name(ox / 2), FORM_NAMES[1 + ox % 2], cube.keys[kx], mods_str(mx), mode_str(MODES[modex]))))
+                        .with("second", J::s(format!("{} {} {:?} {} {}", layout_name(oy / 2), FORM_NAMES[1 + oy % 2], cube.keys[ky], mods_str(my), mode_str(MODES[modey]))))
+                        .with("expected_last", J::s(cube.show(want)))
+                        .with("observed_last", J::s(cube.show(got))),
+                );
+            }
+        }
+    }
+}
+
 pub fn run_c17(rep: &mut Report) {
     let cube = cube_common("C17", rep);
     let mut distinct = 0u64;
@@ -1109,6 +1240,7 @@ pub fn run_c17(rep: &mut Report) {
             );
         }
     }
+    c17_hidden_state_probe(rep, &cube);
     rep.count("variant_switches", switches);
     rep.distinct_nontrivial = distinct;
     rep.exhaustive = Some(true);
